@@ -265,7 +265,7 @@ func (p *crashProp) Run(rc *RunCtx, sc *Scenario) *RunInfo {
 			return info
 		}
 		// the process is dead; a new one opens the directory
-		if d := checkLayoutBlobsOnly(dir); d != "" {
+		if d := checkLayoutBlobsOnly(dir, true); d != "" {
 			return fail("corrupt-blob", "", "%s", d)
 		}
 		got, err := observeTags(dir, g)
@@ -307,7 +307,7 @@ func (p *crashProp) Run(rc *RunCtx, sc *Scenario) *RunInfo {
 }
 
 // checkLayoutBlobsOnly: every file under blobs/ hashes to its name.
-func checkLayoutBlobsOnly(dir string) string {
+func checkLayoutBlobsOnly(dir string, namesToo bool) string {
 	algs, _ := os.ReadDir(filepath.Join(dir, "blobs"))
 	for _, a := range algs {
 		files, _ := os.ReadDir(filepath.Join(dir, "blobs", a.Name()))
@@ -318,7 +318,11 @@ func checkLayoutBlobsOnly(dir string) string {
 			}
 			d := digest.NewDigestFromEncoded(digest.Algorithm(a.Name()), f.Name())
 			if d.Validate() != nil {
-				continue
+				if !namesToo {
+					continue
+				}
+				// the crash scenarios plant no files of their own under blobs/
+				return fmt.Sprintf("file blobs/%s/%s is not named after a digest (%d bytes)", a.Name(), f.Name(), len(data))
 			}
 			if digest.Algorithm(a.Name()).FromBytes(data) != d {
 				return fmt.Sprintf("blob file %s/%s is incomplete or does not match its name (%d bytes)", a.Name(), f.Name()[:12], len(data))
